@@ -256,7 +256,7 @@ def state_key(spec):
 
 
 def budget(tier):
-    return {"timeout": 400.0 if tier == "quick" else 1500.0, "per_path": 30.0}
+    return {"timeout": 300.0 if tier == "quick" else 1500.0, "per_path": 30.0}
 
 
 META = {
